@@ -559,6 +559,27 @@ class Env:
                     self.sock.subscribe_on_message_received(self.msg_sub)
                 else:
                     self.sock.unsubcribe_on_message_received(self.msg_sub)
+            elif k == "msgsub2":
+                # a second message subscriber that needs a few loop passes per frame (I/O of its own); what it has HANDLED, in the order it
+                # finished, is reported as `handled2` (a frame handed over while the previous one is still being handled shows as overlap)
+                turns = int(op[1])
+                env = self
+                env.handled2 = []
+                env.busy2 = 0
+
+                async def sub2(header, message, turns=turns):
+                    from canon import canon
+                    if env.busy2:
+                        env.handled2.append("OVERLAP")
+                    env.busy2 += 1
+                    try:
+                        for _ in range(turns):
+                            await asyncio.sleep(0)
+                        env.handled2.append(canon(header) + "|" + canon(message))
+                    finally:
+                        env.busy2 -= 1
+                self.msg_sub2 = sub2
+                self.sock.subscribe_on_message_received(sub2)
             elif k == "subslow":
                 self.conn_sub_slow = int(op[1]) if len(op) < 3 else (int(op[1]), int(op[2]))
             elif k == "subsend":
@@ -650,14 +671,16 @@ class Env:
         lg = logging.getLogger("pyairtouch.comms.socket")
         lg.removeHandler(self.drop_handler)
         self.loop.close()
-        return {"steps": self.rec.steps, "census": self.census, "delivered": list(self.delivered_canon),
+        return {"steps": self.rec.steps, "census": self.census, "delivered": list(self.delivered_canon), "handled2": list(getattr(self, "handled2", [])),
                 "unhandled": [str(c.get("message")) + ":" + type(c.get("exception")).__name__ for c in self.loop.unhandled]}
 
 
 def run_script(script, gen=4, idle_ticks=0):
     import zlib
-    Env.debug_log = bool(zlib.crc32(repr([tuple(op) for op in script]).encode()) & 1)
+    h = zlib.crc32(repr([tuple(op) for op in script]).encode())
+    Env.debug_log = bool(h & 1)
     env = Env(gen)
+    env.net.kind_offset = (h >> 3) % 6
     return env.run(script, idle_ticks)
 
 
